@@ -564,6 +564,29 @@ def remoteMethod (K : ClientEnv) (bound maxRetries : Nat) (run : Nat → ClientO
     Option (ClientOut × ConnFate) × Nat :=
   retryLoop K maxRetries run bound 0
 
+/-! ### streams and housekeeping (server.py Daemon._housekeeping 548-572, DaemonObject.get_next_stream_item 177-189) -/
+
+/-- what housekeeping looks at in one entry of `streaming_responses`: time since the stream was created, and — when the
+    client of the stream went away — time since then (`none`: the client is connected, the linger timestamp is 0); ms -/
+structure StreamAge where
+  age : Nat
+  lingering : Option Nat
+
+/-- one housekeeping run keeps the stream: not past `ITER_STREAM_LIFETIME` (0 = no limit), and not lingering longer than
+    `ITER_STREAM_LINGER` (0 = test not made) -/
+def streamSurvives (lifetime linger : Nat) (s : StreamAge) : Bool :=
+  !(0 < lifetime && lifetime < s.age)
+    && !(0 < linger && (match s.lingering with | some t => linger < t | none => false))
+
+def msgTerminated : Str := cs "item stream terminated"
+
+/-- a stream item fetched after a housekeeping run: the item's own outcome if the stream survived, otherwise
+    `get_next_stream_item` raises PyroError("item stream terminated") (which travels like any raised exception) -/
+def streamItemCall {W : Type} (S : ServerEnv) (K : ClientEnv) (c : Codec W) (R : Render) (lifetime linger : Nat)
+    (s : StreamAge) (step : Step) (tb : Val) : ClientOut × ConnFate :=
+  if streamSurvives lifetime linger s then clientCall S K c R .streamItem step tb
+  else clientCall S K c R .streamItem (.raise (pyroErr qPyroError msgTerminated)) tb
+
 /-- the next call on the same proxy goes through: the server kept the connection, or the proxy dropped its own end
     and reconnects -/
 def usableAfter (o : ClientOut × ConnFate) : Bool := o.2 == .active || o.1.released
